@@ -50,11 +50,13 @@ Cycle(R, en) ==
     /\ ptr'    = NextPtr(N, HasEn, ptr, R, en)
     /\ wait'   = NextWait(N, HasEn, ptr, wait, R, en)
 
-Reset == /\ ptr' = 0 /\ reqs' = {} /\ grants' = {}
-         /\ wait' = [i \in Inputs(N) |-> 0]
+\* a cycle with reset asserted: requests (and the enable) may be anything; the grant output is still the
+\* combinational function of the current pointer, and the pointer is 0 afterwards whatever was granted
+Reset(R, en) == /\ ptr' = 0 /\ reqs' = R /\ grants' = Grant(N, ptr, R)
+                /\ wait' = [i \in Inputs(N) |-> 0]
 
 Next == \/ \E R \in SUBSET Inputs(N), en \in (IF HasEn THEN BOOLEAN ELSE {TRUE}) : Cycle(R, en)
-        \/ Reset
+        \/ \E R \in SUBSET Inputs(N), en \in (IF HasEn THEN BOOLEAN ELSE {TRUE}) : Reset(R, en)
 
 Spec == Init /\ [][Next]_vars
 
@@ -68,7 +70,8 @@ GrantIffReq   == (grants = {}) <=> (reqs = {})
 \* an input that keeps requesting is granted within N granting cycles
 BoundedWait   == \A i \in Inputs(N) : wait[i] <= N - 1
 \* priority rotates to the input after the last granted one
-Rotates       == [][\A R \in SUBSET Inputs(N) :
+IsReset       == \E R \in SUBSET Inputs(N), en \in BOOLEAN : Reset(R, en)
+Rotates       == [][IsReset \/ \A R \in SUBSET Inputs(N) :
                       (reqs' = R /\ R # {} /\ ptr' # ptr) =>
                           \E g \in grants' : ptr' = (g + 1) % N]_vars
 \* without a grant (or with en low) priority is unchanged
